@@ -54,7 +54,6 @@ package skchia
 // lastDequeued[q]: the space id most recently removed from plotter queue q by Delete (ghost)
 //@ ghost lastDequeued map[int]int
 //@ func (*plotterQueue).Delete
-//@   requires pq != nil && pq.Prque != nil
 //@   requires lock-entry: !held[addr(pq.Mutex)]
 //@   modifies lastDequeued[pq], pq.Prque
 //@   ensures the-popped-item-is-not-touched-by-a-queue-deletion: pq.poppedItem == old(pq.poppedItem)
